@@ -516,20 +516,19 @@ impl Xot {
 
         for ancestor in self.ancestors(node) {
             for (key, value) in self.namespaces(ancestor).iter() {
-                if seen.contains(&key) {
-                    return None;
+                // a prefix that was already seen is shadowed by a nearer declaration
+                if !seen.insert(key) {
+                    continue;
                 }
-                seen.insert(key);
                 if *value == namespace {
                     return Some(key);
                 }
             }
         }
         for (key, value) in self.base_prefixes() {
-            if seen.contains(&key) {
-                return None;
+            if !seen.insert(key) {
+                continue;
             }
-            seen.insert(key);
             if value == namespace {
                 return Some(key);
             }
